@@ -319,7 +319,45 @@ pub fn ztable_tokens(tab: &[(Option<Vec<u8>>, Vec<u8>)]) -> String {
 /// What prost itself (called directly, not through tonic) makes of a payload offered as a
 /// `google.protobuf.Any`: its canonical re-encoding, or `None` when it does not decode.
 pub fn oracle_prost(payload: &[u8]) -> Option<Vec<u8>> {
+    // The oracle must not itself depend on prost's recursion limit being switched on (cargo unifies
+    // features: a tonic that enables `prost/no-recursion-limit` changes the prost this harness calls
+    // too - seed C07e). Group nesting is measured by an iterative walk first; beyond prost's documented
+    // limit of 100 (with a margin for its exact counting) the payload is refused without calling prost.
+    if max_group_depth(payload) > 110 {
+        return None;
+    }
     <prost_types::Any as prost::Message>::decode(payload).ok().map(|m| prost::Message::encode_to_vec(&m))
+}
+
+/// Deepest nesting of START_GROUP keys in the top-level field sequence of `b`, by an iterative walk
+/// (length-delimited fields are skipped, as prost skips them for `Any`); stops at the first malformed key.
+fn max_group_depth(b: &[u8]) -> usize {
+    fn varint(b: &[u8], i: &mut usize) -> Option<u64> {
+        let mut v = 0u64;
+        for k in 0..10 {
+            let x = *b.get(*i)?;
+            *i += 1;
+            v |= ((x & 0x7f) as u64) << (7 * k);
+            if x & 0x80 == 0 {
+                return Some(v);
+            }
+        }
+        None
+    }
+    let (mut i, mut depth, mut max) = (0usize, 0usize, 0usize);
+    while i < b.len() {
+        let Some(key) = varint(b, &mut i) else { break };
+        match key & 7 {
+            0 => { if varint(b, &mut i).is_none() { break } }
+            1 => i += 8,
+            2 => { let Some(l) = varint(b, &mut i) else { break }; i = i.saturating_add(l as usize) }
+            3 => { depth += 1; max = max.max(depth) }
+            4 => depth = depth.saturating_sub(1),
+            5 => i += 4,
+            _ => break,
+        }
+    }
+    max
 }
 
 /// Every complete frame payload a naive header walk finds in `bytes` (decompressed by the
